@@ -105,4 +105,11 @@ def handleIsolate (toks : List String) : String :=
   | [_, _] => "ok"
   | _ => "bad-op"
 
+/-- `recon <carrier> <rounds>`: after every loss of the carrier the same upstream connects again over the transport
+    its scheme names -/
+def handleRecon (toks : List String) : String :=
+  match toks with
+  | [carrier, _] => "ok all-" ++ (if carrier = "tcptls" ∨ carrier = "wss" then "tls" else "plain") ++ "=true"
+  | _ => "bad-op"
+
 end SA.Accept
